@@ -274,7 +274,7 @@ def judge_from_extended_key(ctx, case):
 
 def run(ctx):
     rnd = ctx.rnd
-    lzx = gen.leading_zero_x_scalars()
+    lzx = gen.leading_zero_x_scalars() + gen.leading_zero_y_scalars()
     if ctx.shard == 0:
         judge_version_table(ctx)
     for _ in range(ctx.scale(200, 8000)):
